@@ -589,6 +589,8 @@ def _run_props(res, ctx):
         run_observations(res, tmp, drv)
         run_ini(res, tmp, drv)
         run_baseline_exit(res, tmp)
+        run_malformed_baseline(res, tmp)
+        run_ini_foreign_keys(res, tmp)
         run_profile_names(res, tmp)
         check_tables(res, drv)
         res.exhaustive = thorough    # the full finite option space (incl. mixed spellings, all verbosities) only in thorough
@@ -856,6 +858,102 @@ def run_baseline_exit(res, tmp):
                             res.violation("exit status does not go with the report written under a baseline (1 iff the report lists a finding and --exit-zero is absent)", dict(replay, expected_exit=want_exit))
                         if expect_n is not None and n != expect_n:
                             res.violation("a program re-scanned against its own report lists findings", replay)
+
+
+def run_malformed_baseline(res, tmp):
+    """A -b file that is not a usable report (not JSON; JSON of another shape: an array of reports, `results` null / an object / entries that are not objects or lack
+    keys) is reported as such and the scan goes on as without a baseline: never a traceback, a report is written, and the exit status goes with that report (seeded change
+    C03-m15 narrowed the blanket `except Exception` in populate_baseline to ValueError/KeyError: well-formed JSON of the wrong shape died in TypeError with exit 1
+    before anything was scanned, even for a clean target and with --exit-zero)."""
+    d = os.path.join(tmp, "blbad")
+    os.makedirs(d)
+    dirty = _write(os.path.join(d, "dirty.py"), "import subprocess\nassert x\nsubprocess.Popen(c, shell=True)\n")
+    clean = _write(os.path.join(d, "clean.py"), "x = 1\n")
+    own = os.path.join(d, "own.json")
+    C.run_cli(["-f", "json", "-o", own, "-q", dirty])
+    rep = json.load(open(own))
+    shapes = {"array-of-reports": [rep, rep], "results-null": {"results": None}, "results-object": {"results": {"a": 1}}, "entries-not-objects": {"results": [1, "x", None]},
+              "entries-lack-keys": {"results": [{"test_id": "B101"}]}, "a-string": "just a string", "a-number": 7, "null": None, "no-results-key": {"errors": []},
+              "entry-is-list": {"results": [["B101", 2]]}, "nested-wrong-types": {"results": [dict(rep["results"][0], issue_cwe=5)] if rep["results"] else []}}
+    files = {k: _write(os.path.join(d, k + ".json"), json.dumps(v)) for k, v in shapes.items()}
+    files["not-json"] = _write(os.path.join(d, "notjson.json"), "{results: [")
+    files["empty-file"] = _write(os.path.join(d, "emptyfile.json"), "")
+    for label, base in files.items():
+        for target, tl in ((dirty, "findings"), (clean, "clean")):
+            for extra in ([], ["--exit-zero"], ["-lll", "-iii"]):
+                argv = ["-b", base, "-f", "json"] + extra + [target]
+                outp = os.path.join(d, "rep.out")
+                if os.path.exists(outp):
+                    os.remove(outp)
+                r = C.run_cli(argv + ["-o", outp])
+                res.case(("malformed-baseline", label, tl, tuple(extra)), True)
+                res.count("stream:malformed-baseline")
+                n = None
+                try:
+                    n = len(json.load(open(outp))["results"])
+                except Exception:
+                    n = None
+                replay = {"stream": "malformed-baseline", "argv": [a.replace(tmp, "{TMP}") for a in argv], "baseline_shape": label, "baseline_text": open(base).read()[:300],
+                          "program": open(target).read(), "exit": r["exit"], "exc": r["exc"], "findings_in_report": n}
+                if r["exc"] is not None:
+                    res.violation("a traceback when the -b file is not a usable report", replay)
+                    continue
+                if r["exit"] == 2 and n is None:
+                    continue                              # rejected with a diagnostic before scanning: acceptable
+                if n is None:
+                    res.violation("no report although the run did not reject the baseline file", replay)
+                    continue
+                want_exit = 1 if (n > 0 and "--exit-zero" not in extra) else 0
+                if r["exit"] != want_exit:
+                    res.violation("exit status does not go with the report written (unusable baseline file)", dict(replay, expected_exit=want_exit))
+
+
+INI_DOCUMENTED = {"configfile", "exclude", "skips", "tests", "targets", "recursive", "aggregate", "number", "profile", "level", "confidence", "format", "msg-template", "output",
+                  "verbose", "debug", "quiet", "ignore-nosec", "baseline"}
+
+
+def run_ini_foreign_keys(res, tmp):
+    """A key of the INI file that is not one of the documented options - in particular anything that sounds like `exit-zero` set to a value that reads as *false* - does
+    not change the exit status: 1 iff a finding at or above the thresholds is reported.  (Seeded change C03-m16 wired a new `exit-zero` INI key through the helper that
+    returns `ini_val if ini_val else arg_val`: any non-empty string, `false` included, switched the exit status off.)  Names: a fixed list plus every option-like literal
+    on the lines by which /repo differs from the recorded commit (diffhints)."""
+    import diffhints
+    d = os.path.join(tmp, "inikeys")
+    os.makedirs(d)
+    dirty = _write(os.path.join(d, "dirty.py"), "import subprocess\nassert x\nsubprocess.Popen(c, shell=True)\n")
+    ref = C.run_cli(["-f", "json", dirty])
+    try:
+        ref_n = len(json.loads(ref["out"])["results"])
+    except Exception:
+        ref_n = None
+    names = ["exit-zero", "exit_zero", "exitzero", "exit-code", "fail", "fail-on-findings", "no-fail", "zero", "strict", "warn-only", "report-only"]
+    for h in diffhints.hints(C.REPO)["strings"]:
+        if re.fullmatch(r"[a-z][a-z0-9_-]{2,30}", h) and h not in INI_DOCUMENTED and h not in names:
+            names.append(h)
+    proj = os.path.join(d, "proj")
+    os.makedirs(proj)
+    _write(os.path.join(proj, "mod.py"), open(dirty).read())
+    for nm in names:
+        for val in ("false", "False", "no", "0", "off"):
+            ini = _write(os.path.join(d, "k.ini"), "[bandit]\n%s = %s\n" % (nm, val))
+            _write(os.path.join(proj, ".bandit"), "[bandit]\n%s = %s\n" % (nm, val))
+            for label, argv in (("--ini", ["--ini", ini, "-f", "json", dirty]), ("project .bandit", ["-r", proj, "-f", "json"]), ("--ini -ll", ["--ini", ini, "-ll", "-f", "json", dirty])):
+                r = C.run_cli(argv)
+                res.case(("ini-foreign-key", nm, val, label), True)
+                res.count("stream:ini-foreign-key")
+                try:
+                    n = len(json.loads(r["out"])["results"])
+                except Exception:
+                    n = None
+                replay = {"stream": "ini-foreign-key", "ini_file": "[bandit]\n%s = %s" % (nm, val), "how": label, "argv": [a.replace(tmp, "{TMP}") for a in argv],
+                          "program": open(dirty).read(), "exit": r["exit"], "exc": r["exc"], "findings_in_report": n}
+                if r["exc"] is not None or n is None:
+                    res.violation("no report / a traceback with an undocumented key in the INI file", replay)
+                elif r["exit"] != (1 if n > 0 else 0):
+                    res.violation("exit status does not go with the report (1 iff it lists a finding) when the INI file holds an undocumented key set to a false-looking value", replay)
+                elif label == "--ini" and ref_n is not None and n != ref_n:
+                    res.violation("an undocumented INI key changed the findings reported", dict(replay, findings_without_ini=ref_n))
+    os.remove(os.path.join(proj, ".bandit"))
 
 
 def run_profile_names(res, tmp):
